@@ -76,6 +76,9 @@ def inject_run(ctx, w, cfg, call, path, occ, errno=None):
     rc, calls, out = strace_util.trace(ctx.binary, d, l3gen.cfg_args(cfg), extra_strace=extra)
     after = l3gen.canon_snapshot(ws.snapshot(d, skip=("patches",)))
     ws.cleanup(d)
+    # did the fault fire?  With several threads the call may not happen in this run at all: a file that only
+    # patches behind the failing one touch is loaded (and saved again) only if its worker ran ahead
+    inject_run.fired = any(name == call and ret < 0 for name, _, ret in calls)
     return rc, out, before, after
 
 
@@ -160,6 +163,9 @@ def run(ctx):
         sample = positions if len(positions) <= per_ws else rng.sample(positions, per_ws)
         for call, path, occ in sample:
             rc, out, before, after = inject_run(ctx, w, cfg, call, path, occ)
+            if not inject_run.fired:
+                hist["fault position not reached in the injected run (threads=%d)" % cfg["threads"]] += 1
+                continue
             total_inj += 1
             hist["inject " + call] += 1
             what = "threads=%d" % cfg["threads"]
